@@ -15,9 +15,10 @@
 //!   `frame call <ext 0|1> <t|a> <value> <caller> <target> <bytecode_addr> <caller_bal> <target_bal> <pc n|ok|oog|err> <code e|f|l> <delegate|->`
 //!   `frame create <value> <caller> <caller_bal> <caller_nonce> <ef00 0|1> <created> <is_pc 0|1> <has_storage 0|1> <t_bal> <t_nonce> <t_codehash>`
 //!   `frame eofcreate <o|t> <decodes> <validates> <value> <caller> <caller_bal> <caller_nonce> <created> <is_pc> <has_storage> <t_bal> <t_nonce> <t_codehash>`
-//!        -> `res <InstructionResult> d=<before>><after>`  (immediate result)  |  `frame d=<before>><after>`
+//!        -> `res <class> d=<before>><after>`  (immediate result; class = ok | toodeep | valuefail | precompilefail |
+//!           collision | rejected | other: the outcome classes the property names, not the exact error kind)  |  `frame d=<before>><after>`
 //!   `frame ret <ok 0|1> <first_ef> <len_over> <deposit_ok> <is_return_contract> <codehash>`
-//!        -> `ret <c|k|e> <class> d=<before>><after> neutral=<0|1>`   (neutral: depth after the end == depth at the matching begin)
+//!        -> `ret <c|k|e> <ok|fail> d=<before>><after> neutral=<0|1>`   (neutral: depth after the end == depth at the matching begin)
 //!   `frame probe <launch_level>` -> `<deepest level reported by the probe>`   (call transactions only)
 //!   `frame end` -> `depth=<depth seen at the last hook> open=<frames still open>`
 //! Every request field is an observation made by the inspector on the real EVM (inputs of the action,
@@ -755,6 +756,20 @@ fn res_name(r: InstructionResult) -> String {
     format!("{:?}", r)
 }
 
+/// the outcome classes the property speaks about (the exact error kind is not compared)
+fn res_class(r: InstructionResult) -> &'static str {
+    use InstructionResult::*;
+    match r {
+        Stop | Return | ReturnContract | SelfDestruct => "ok",
+        CallTooDeep => "toodeep",
+        OutOfFunds | OverflowPayment => "valuefail",
+        PrecompileOOG | PrecompileError => "precompilefail",
+        CreateCollision => "collision",
+        InvalidExtDelegateCallTarget | CreateInitCodeStartingEF00 | InvalidEOFInitCode => "rejected",
+        _ => "other",
+    }
+}
+
 /// runs the transaction of a case; returns (request, reply) lines after the `begin` line
 fn exec_case(p: &Params, out: &mut Out) -> Result<Vec<(String, String)>, String> {
     use opcode::*;
@@ -893,7 +908,7 @@ fn exec_case(p: &Params, out: &mut Out) -> Result<Vec<(String, String)>, String>
                     }
                     (None, Some((r, d1))) => {
                         out.count(&format!("path:{kind}:{}", res_name(*r)));
-                        format!("res {} d={}>{}", res_name(*r), d0, d1)
+                        format!("res {} d={}>{}", res_class(*r), d0, d1)
                     }
                     (None, None) => "unresolved".to_string(),
                 };
@@ -901,7 +916,8 @@ fn exec_case(p: &Params, out: &mut Out) -> Result<Vec<(String, String)>, String>
             }
             Ev::End { kind, req, class, dbefore, dafter, neutral } => {
                 out.count(&format!("end:{kind}:{class}"));
-                lines.push((req.clone(), format!("ret {} {} d={}>{} neutral={}", kind, class, dbefore, dafter, b01(*neutral))));
+                let coarse = if ["ok", "ret", "retc"].contains(&class.as_str()) { "ok" } else { "fail" };
+                lines.push((req.clone(), format!("ret {} {} d={}>{} neutral={}", kind, coarse, dbefore, dafter, b01(*neutral))));
             }
         }
     }
